@@ -495,6 +495,68 @@ def random_chooser(rng):
     return choose
 
 
+def scale_program(rng, n):
+    """Scale: one crawl batch in which a hub page is cited by n sources (n > 1000) and a second page has
+    n targets, advanced in turns with two small batches that cite / crawl those same two pages.  No query
+    (a per-step snapshot of an index this size would dominate); the oracles are: nothing raises, the final
+    pages and link multigraph are those of the batches applied one after another, S1-S7 and symmetry."""
+    site = b"s:http|h:com|h:sc|"
+    hub, fan = site + b"p:hub|", site + b"p:fan|"
+    srcs = [site + b"p:s%04d|" % i for i in range(n)]
+    tgts = [fan + b"p:t%04d|" % i for i in range(n)]
+    rng.shuffle(srcs)
+    extra = [site + b"p:x%d|" % i for i in range(6)]
+    base = [{"op": "add_pages", "lrus": [hub, fan] + extra[:2], "crawled": False, "as_str": False},
+            {"op": "add_links", "links": [[extra[0], hub], [fan, extra[1]]], "as_str": False}]
+    big = {"kind": "batch", "data": [[s_, [hub] + ([rng.choice(tgts)] if rng.random() < 0.1 else [])] for s_ in srcs] + [[fan, list(tgts)]]}
+    small1 = {"kind": "batch", "data": [[extra[2], [hub, fan]], [hub, [extra[3], hub + b"p:child|"]]]}
+    small2 = {"kind": "batch", "data": [[fan, [extra[4]]], [tgts[0], [hub]], [extra[5], [fan + b"p:a|", hub]]]}
+    cfg = {"backend": rng.choice(["memory", "file"]), "default": "domain", "encoding": "utf-8", "overwrite": False, "rules": []}
+    return {"engine": "scheduler", "cfg": cfg, "base": base, "requests": [big, small1, small2], "sseed": rng.getrandbits(32), "warmup": False, "scale": n}
+
+
+def delayed_chooser(rng, total0):
+    """Request 0 (the big one) runs throughout; every other request starts once request 0 has made a
+    random number of steps (uniform over its whole length) and is then advanced about every other step."""
+    start = {}
+    done0 = [0]
+
+    def choose(step, alive):
+        others = []
+        for i in alive:
+            if i == 0:
+                continue
+            if i not in start:
+                start[i] = rng.randrange(0, max(1, total0))
+            if done0[0] >= start[i] or 0 not in alive:
+                others.append(i)
+        if others and (0 not in alive or rng.random() < 0.5):
+            return rng.choice(others)
+        if 0 in alive:
+            done0[0] += 1
+            return 0
+        return rng.choice(alive)
+
+    return choose
+
+
+def insertion_chooser(at, order):
+    """Request 0 makes `at` steps, then the other requests run to completion in the given order, then
+    request 0 continues: the small requests inserted, whole, at one yield point of the big one."""
+    done0 = [0]
+
+    def choose(step, alive):
+        if 0 in alive and done0[0] < at:
+            done0[0] += 1
+            return 0
+        for i in order:
+            if i in alive:
+                return i
+        return alive[0]
+
+    return choose
+
+
 def forced_chooser(prefix, record):
     def choose(step, alive):
         record.append(list(alive))
@@ -631,6 +693,51 @@ def run_shard(prop, spec, tier, seed, shard, nshards, scratch):
                 c["schedule"] = d.get("schedule")
                 c["violation"] = d
                 entry["case_file"] = save_case(prop, seed, shard, idx, c)
+            res["violations"].append(entry)
+            break
+    if tp.get("scale"):
+        rng = random.Random("%s/%s/scale" % (seed, prop))
+        case = scale_program(rng, tp["scale"])
+        case["id"] = "scale/%s" % tp["scale"]
+        stats["C16_scale_programs"] += 1
+        rec = []
+        ds, trace, info = run_schedule(case, forced_chooser([], rec), scratch, stats)  # one after another: counts the steps
+        total0 = sum(1 for x in trace if x == 0)
+        res["cases"] += 1
+        found = ds
+        # every stride-th yield point of the big batch as the place where the small ones run (split over the
+        # shards), then randomly delayed, step-wise interleaved schedules
+        plans = [("at", p_) for p_ in range(shard * tp.get("scale_stride", 1), total0 + 1, nshards * tp.get("scale_stride", 1))]
+        plans += [("rnd", "%s/%s" % (shard, j)) for j in range(tp.get("scale_schedules", 4))]
+        for kind, arg in plans:
+            if found or time.time() > deadline + 60:
+                if not found:
+                    res["notes"].append("shard %d: scale schedules cut short by the time cap" % shard)
+                break
+            if kind == "at":
+                ch = insertion_chooser(arg, [1, 2] if (arg // nshards) % 2 == 0 else [2, 1])
+                stats["C16_scale_insertion_points"] += 1
+            else:
+                ch = delayed_chooser(random.Random("%s/%s" % (case["sseed"], arg)), total0)
+            ds, trace, info = run_schedule(case, ch, scratch, stats)
+            res["cases"] += 1
+            stats["C16_scale_schedules"] += 1
+            stats["C16_scale_steps"] += info.get("steps", 0)
+            if info.get("digest"):
+                state_digests.add(info["digest"])
+            if ds:
+                for d in ds:
+                    d["schedule"] = trace
+                found = ds
+        if shard == 0:
+            res["notes"].append("scale program: %d sources citing one page and one page with %d targets in one batch, %d steps, with two small batches"
+                                % (tp["scale"], tp["scale"], total0))
+        for d in found:
+            entry = {"discrepancy": d, "case": case["id"]}
+            c = dict(case)
+            c["schedule"] = d.get("schedule")
+            c["violation"] = d
+            entry["case_file"] = save_case(prop, seed, shard, "scale", c)
             res["violations"].append(entry)
             break
     stats["C16_distinct_random_schedules"] = len(distinct_sched)
